@@ -694,7 +694,13 @@ func (sr *sessRunner) opFetch(s *Stream) {
 // probeLocals reads every local and every data name through evaluation and compares with the model.
 func (sr *sessRunner) probeLocals(when string) {
 	for _, n := range append(append([]string{}, sessLocals...), "x", "y", "s", "flag") {
-		v, err, pan, perr := sr.resolve(n)
+		arr, err, pan, perr := sr.resolve("[" + n + "]") // inside an array numbers keep all their digits
+		var v interface{}
+		if a1, isArr := arr.([]interface{}); isArr && len(a1) == 1 {
+			v = a1[0]
+		} else if perr == nil && pan == nil && err == nil {
+			err = errors.New("probe did not return a one-element array")
+		}
 		want := sr.m.lookup(n)
 		if perr != nil || pan != nil || err != nil || !matches(want, v) {
 			sr.violation("later evaluations see the current data map and locals", "read-differs", when+": evaluating `"+n+"` gave "+implString(v)+" err="+errText(err)+errText(perr)+", model "+want.String())
@@ -781,12 +787,20 @@ func (sr *sessRunner) evalChecked(n *MNode, text string, faultAt int, shadow boo
 					cands = append(cands, b.new)
 				}
 			}
-			got, gerr, gpan, gperr := sr.resolve(a.name)
+			// read it inside an array: a top-level number comes back as float64, which cannot tell
+			// 123456789012345713 from ...714
+			gotArr, gerr, gpan, gperr := sr.resolve("[" + a.name + "]")
+			var got interface{}
+			if arr, isArr := gotArr.([]interface{}); isArr && len(arr) == 1 {
+				got = arr[0]
+			} else if gerr == nil && gpan == nil && gperr == nil {
+				gerr = errors.New("probe did not return a one-element array")
+			}
 			ok := false
 			if gerr == nil && gpan == nil && gperr == nil {
-				for _, c := range cands {
-					if matches(c, got) {
-						sr.m.setEntry(a.name, c)
+				for ci := len(cands) - 1; ci >= 0; ci-- { // the latest value first
+					if matches(cands[ci], got) {
+						sr.m.setEntry(a.name, cands[ci])
 						ok = true
 						break
 					}
